@@ -56,6 +56,12 @@ def subset_data(d, s, lv, lo, hi):
         ns = d["nspecies"]
         for k in range(ns):   # mass fractions: positive, sum != 1
             arr[..., 4 + k] = (0.1 + 0.05 * k) + (_vals(lv, k, glo, ghi, d["seed"], 0.0) % 0.125)
+        if d.get("ysum") == "drift":
+            # solver drift: every cell's species sum is within 4e-6 of one (and never exactly one)
+            idx = np.meshgrid(*[np.arange(glo[k_], ghi[k_] + 1) for k_ in range(3)], indexing="ij")
+            delta = (((idx[0] + 2 * idx[1] + 3 * idx[2]) % 8) - 3.5) * 1e-6
+            ysum = np.sum(arr[..., 4:4 + ns], axis=-1)
+            arr[..., 4:4 + ns] = arr[..., 4:4 + ns] / ysum[..., None] * (1.0 + delta)[..., None]
     return arr, glo, ghi
 
 
